@@ -55,6 +55,9 @@
 (*  ndflt a definition inside a function evaluates a default expression that mentions a     *)
 (*        variable of a function further out (pyscript captures only names mentioned in     *)
 (*        bodies and decorators, not in the default expressions of inner definitions)       *)
+(*  dyncap a function is defined while a CALLER on the stack has a local with the name of    *)
+(*        one of its global free variables (pyscript searches the call stack's tables:      *)
+(*        dynamic scoping)                                                                  *)
 (* and two marks for behaviour that is not demanded here: sv (below) and                    *)
 (*  xdel  the target of `except .. as x` was deleted inside the handler (the handler's exit  *)
 (*        protocol is C02's business)                                                       *)
@@ -213,6 +216,11 @@ Load(P, M, f, x) ==
        IF v.k = "unbound" /\ P.codes[M.frames[w].code].kind = "class" THEN ClassGlobal(P, M, w, x) ELSE v
 StoreAt(M, w, x, v) == IF w = 0 THEN [M EXCEPT !.globs[Top(M.ctx)][x] = v] ELSE [M EXCEPT !.frames[w].vars[x] = v]
 Store(P, M, f, x, v) == StoreAt(M, Where(P, M, f, x), x, v)
+\* is x a local of an interpreted function somewhere on the dynamic call chain starting at frame g
+RECURSIVE OnStack(_, _, _, _)
+OnStack(P, M, g, x) ==
+  IF g = 0 THEN FALSE
+  ELSE (P.codes[M.frames[g].code].kind = "func" /\ x \in P.loc[M.frames[g].code]) \/ OnStack(P, M, M.frames[g].caller, x)
 Mark(M, m) == IF M.marks[m] = 0 THEN [M EXCEPT !.marks[m] = Len(M.log) + 1] ELSE M
 
 (* ------------------------------ log ------------------------------------------------------ *)
@@ -243,7 +251,7 @@ DefaultOf(sig, fv, p) ==
 
 (* ------------------------------ the interpreter ------------------------------------------ *)
 RECURSIVE Eval(_, _, _, _), EvalList(_, _, _, _, _, _), MakeFn(_, _, _, _), Comp(_, _, _, _, _, _),
-          Apply(_, _, _, _, _, _), CallFn(_, _, _, _, _, _), ApplyDecos(_, _, _, _, _),
+          Apply(_, _, _, _, _, _, _), CallFn(_, _, _, _, _, _, _), ApplyDecos(_, _, _, _, _, _),
           Exec(_, _, _, _, _), Stmt(_, _, _, _), ForLoop(_, _, _, _, _, _)
 
 \* expressions es[i..] left to right; result [M, r] with r an exception or [k |-> "vals", vs]
@@ -258,7 +266,10 @@ MakeFn(P, M0, f, c) ==
       nd == f # 0 /\ P.codes[fc].kind = "func" /\
             \E x \in NamesEs(P.codes, P.codes[c].dflt, 1) \cup NamesEs(P.codes, P.codes[c].kodflt, 1) :
                x \notin P.loc[fc] /\ x \notin Range(P.codes[fc].globals) /\ Owner(P, M0, M0.frames[f].parent, x) # 0
-      M  == IF nd THEN Mark(M0, "ndflt") ELSE M0
+      dc == \E x \in P.ment[c] \ (P.loc[c] \cup Range(P.codes[c].globals)) :
+               Owner(P, M0, f, x) = 0 /\ f # 0 /\ OnStack(P, M0, M0.frames[f].caller, x)
+      M1 == IF nd THEN Mark(M0, "ndflt") ELSE M0
+      M  == IF dc THEN Mark(M1, "dyncap") ELSE M1
       d1 == EvalList(P, M, f, P.codes[c].dflt, 1, <<>>) IN
   IF IsExc(d1.r) THEN d1
   ELSE LET d2 == EvalList(P, d1.M, f, P.codes[c].kodflt, 1, <<>>) IN
@@ -282,7 +293,7 @@ Eval(P, M, f, e) ==
                        ELSE Res(o.M, GetAttr(P, o.M, o.r, e.a, e.o.k # "name"))
     [] e.k = "lambda" -> MakeFn(P, M, f, e.c)
     [] e.k = "comp" ->
-         LET fr == [code |-> e.c, parent |-> f, vars |-> [n \in P.names |-> Unbound], nat |-> TRUE]
+         LET fr == [code |-> e.c, parent |-> f, vars |-> [n \in P.names |-> Unbound], nat |-> TRUE, caller |-> f]
              M1 == [M EXCEPT !.frames = Append(@, fr)]
          IN Comp(P, M1, Len(M1.frames), e, 1, 0)
     [] e.k = "call" ->
@@ -292,7 +303,7 @@ Eval(P, M, f, e) ==
               IF IsExc(as.r) THEN as
               ELSE LET ks == EvalList(P, as.M, f, [i \in 1..Len(e.kws) |-> e.kws[i].e], 1, <<>>) IN
                    IF IsExc(ks.r) THEN ks
-                   ELSE Apply(P, ks.M, fv.r, as.r.vs, [i \in 1..Len(e.kws) |-> e.kws[i].n], ks.r.vs)
+                   ELSE Apply(P, ks.M, f, fv.r, as.r.vs, [i \in 1..Len(e.kws) |-> e.kws[i].n], ks.r.vs)
 
 \* [elt for x in ns]: the target lives in the comprehension's own frame fi
 Comp(P, M, fi, e, j, cnt) ==
@@ -301,15 +312,16 @@ Comp(P, M, fi, e, j, cnt) ==
            r  == Eval(P, M1, fi, P.codes[e.c].expr)
        IN IF IsExc(r.r) THEN Res(Mark(r.M, "comp"), r.r) ELSE Comp(P, r.M, fi, e, j + 1, cnt + 1)
 
-Apply(P, M, fv, args, kwn, kwv) ==
-  CASE fv.k = "fn" -> CallFn(P, M, fv, args, kwn, kwv)
-    [] fv.k = "bm" -> CallFn(P, M, fv.fn, <<fv.self>> \o args, kwn, kwv)
+\* cf: the calling frame (dynamic link; Python's semantics never looks at it, the dyncap mark does)
+Apply(P, M, cf, fv, args, kwn, kwv) ==
+  CASE fv.k = "fn" -> CallFn(P, M, cf, fv, args, kwn, kwv)
+    [] fv.k = "bm" -> CallFn(P, M, cf, fv.fn, <<fv.self>> \o args, kwn, kwv)
     [] fv.k = "cls" ->
          LET init == M.frames[fv.fr].vars["__init__"]
              M1   == [M EXCEPT !.objs = Append(@, [cls |-> fv.fr, attrs |-> [n \in P.names |-> Unbound]])]
              ov   == [k |-> "obj", o |-> Len(M1.objs)]
          IN IF init.k = "fn"
-            THEN LET r == CallFn(P, M1, init, <<ov>> \o args, kwn, kwv) IN
+            THEN LET r == CallFn(P, M1, cf, init, <<ov>> \o args, kwn, kwv) IN
                  IF IsExc(r.r) THEN r ELSE IF r.r.k # "none" THEN Res(r.M, Exc("TypeError")) ELSE Res(r.M, ov)
             ELSE IF Len(args) = 0 /\ Len(kwn) = 0 THEN Res(M1, ov) ELSE Res(M, Exc("TypeError"))
     [] fv.k = "builtin" ->
@@ -317,7 +329,7 @@ Apply(P, M, fv, args, kwn, kwv) ==
          THEN Res(M, IntV(IF args[1].n < 0 THEN 0 - args[1].n ELSE args[1].n)) ELSE Res(M, Exc("TypeError"))
     [] OTHER -> Res(M, Exc("TypeError"))                                  \* not callable
 
-CallFn(P, M, fv, args, kwn, kwv) ==
+CallFn(P, M, cf, fv, args, kwn, kwv) ==
   LET code == P.codes[fv.code]
       b    == Bind(code.sig, [npos |-> Len(args), kws |-> kwn], {}, {})
   IN IF b.k = "TypeError" THEN Res(M, Exc("TypeError"))
@@ -330,16 +342,16 @@ CallFn(P, M, fv, args, kwn, kwv) ==
                         LET w == Owner(P, M, fv.env, x) IN w # 0 /\ M.frames[w].vars[x].k = "unbound"
               Mc   == IF code.kind = "func" /\ P.hascomp[fv.code] THEN Mark(M, "comp") ELSE M
               M1   == [(IF ucap THEN Mark(Mc, "ucap") ELSE Mc)
-                         EXCEPT !.frames = Append(@, [code |-> fv.code, parent |-> fv.env, vars |-> vars, nat |-> fv.nat]),
+                         EXCEPT !.frames = Append(@, [code |-> fv.code, parent |-> fv.env, vars |-> vars, nat |-> fv.nat, caller |-> cf]),
                                 !.fuel = IF code.kind = "func" THEN @ - 1 ELSE @]
               fi   == Len(M1.frames)
           IN IF code.kind = "lambda" THEN Eval(P, M1, fi, code.expr)
              ELSE LET r == Exec(P, M1, fi, code.body, 1) IN IF r.r.k = "fall" THEN Res(r.M, NoneV) ELSE r
 
 \* decorators ds[i], ds[i-1], .. ds[1] applied to v (bottom-up)
-ApplyDecos(P, M, ds, i, v) ==
+ApplyDecos(P, M, cf, ds, i, v) ==
   IF i = 0 THEN Res(M, v)
-  ELSE LET r == Apply(P, M, ds[i], <<v>>, <<>>, <<>>) IN IF IsExc(r.r) THEN r ELSE ApplyDecos(P, r.M, ds, i - 1, r.r)
+  ELSE LET r == Apply(P, M, cf, ds[i], <<v>>, <<>>, <<>>) IN IF IsExc(r.r) THEN r ELSE ApplyDecos(P, r.M, cf, ds, i - 1, r.r)
 
 Exec(P, M, f, body, i) ==
   IF i > Len(body) THEN Res(M, Fall)
@@ -374,11 +386,11 @@ Stmt(P, M, f, s) ==
                  IF IsExc(e2.r) THEN e2
                  ELSE LET ds == IF pyOrder THEN d.r.vs ELSE e2.r.vs
                           fn == IF pyOrder THEN e2.r ELSE d.r
-                          r  == ApplyDecos(P, e2.M, ds, Len(ds), fn)
+                          r  == ApplyDecos(P, e2.M, f, ds, Len(ds), fn)
                       IN IF IsExc(r.r) THEN r ELSE Res(Store(P, r.M, f, s.x, r.r), Fall)
     [] s.k = "class" ->
          \* the body runs in its own namespace (a frame that is no enclosing scope); then the class is bound
-         LET M1 == [M EXCEPT !.frames = Append(@, [code |-> s.c, parent |-> f, vars |-> [n \in P.names |-> Unbound], nat |-> TRUE])]
+         LET M1 == [M EXCEPT !.frames = Append(@, [code |-> s.c, parent |-> f, vars |-> [n \in P.names |-> Unbound], nat |-> TRUE, caller |-> f])]
              fi == Len(M1.frames)
              r  == Exec(P, M1, fi, P.codes[s.c].body, 1)
          IN IF IsExc(r.r) THEN r ELSE Res(Store(P, r.M, f, s.x, [k |-> "cls", fr |-> fi]), Fall)
@@ -417,7 +429,7 @@ Expected(prog, flags) ==
              hascomp |-> [c \in 1..Len(prog.codes) |-> HasCompS(prog.codes[c].body, 1)]]
       M0 == [frames |-> <<>>, globs |-> [c \in {"main"} |-> [n \in names |-> Unbound]], ctx |-> <<"main">>,
              objs |-> <<>>, box |-> <<>>, log |-> <<>>, fuel |-> prog.fuel,
-             ndef |-> {}, marks |-> [m \in {"sv", "xdel", "comp", "ucap", "excas", "ndflt"} |-> 0]]
+             ndef |-> {}, marks |-> [m \in {"sv", "xdel", "comp", "ucap", "excas", "ndflt", "dyncap"} |-> 0]]
       r  == Exec(P, M0, 0, prog.codes[1].body, 1)
   IN [log |-> IF IsExc(r.r) THEN Append(r.M.log, [s |-> 0, k |-> r.r.e, n |-> 0]) ELSE r.M.log, marks |-> r.M.marks]
 =============================================================================
